@@ -731,7 +731,9 @@ class Interp(object):
             return old if n.get('post') else new
         if op == '&':
             key = self.lvalue(fr, sub, depth)
-            return Sym(('ADDR', key)) if key is not None else TOP
+            if key is None:
+                return self.model.address_of(self, fr, sub, depth)
+            return Sym(('ADDR', key))
         if op == '*':
             v = self.ev(fr, sub, depth)
             if isinstance(v, Sym) and isinstance(v.tag, tuple) and v.tag[0] == 'ADDR':
@@ -948,6 +950,10 @@ class Model(object):
         pass
 
     def member_value(self, it, fr, n, base):
+        return TOP
+
+    def address_of(self, it, fr, sub, depth):
+        """&expr where expr designates no tracked storage"""
         return TOP
 
     def deref(self, it, fr, n, v):
